@@ -376,6 +376,40 @@ fn synth_files(cfg: &Cfg, tab: &[(i64, i64)]) -> Vec<(std::path::PathBuf, Vec<(i
     }
     b.push_str("\n#\tthe following special comment contains the hash\n#h\t16edd0f0 3666784f 37db6bdd e74ced87 59af48f1\n\n");
     mk("blocks", b, tab.to_vec());
+    // 4d. long files: the comment sections are free-form, so a list that keeps its announcement texts is tens of kilobytes long.
+    // A header sized so that a power-of-two byte offset (a read buffer, a "sanity" length limit) falls inside the last data
+    // line, inside the table, or before it; notes after the table; one very long comment line
+    for b_off in [4096usize, 8192, 16_384, 32_768, 65_536, 1 << 20] {
+        let mut table = String::new();
+        for t in tab {
+            table.push_str(&line(t, "\t", "\t# entry"));
+        }
+        let last_len = line(tab.last().unwrap(), "\t", "\t# entry").len();
+        for (tag, at) in [("last", table.len() - last_len + 12), ("mid", table.len() / 2), ("before", 0usize)] {
+            if b_off < at + 64 {
+                continue;
+            }
+            // the header ends `at` bytes of table before offset b_off
+            let mut h = String::from("#\tBulletin C texts kept for reference\n#$\t 3676924800\n#@\t3928521600\n");
+            let target = b_off - at + if tag == "before" { 200 } else { 0 };
+            while h.len() + 80 < target {
+                h.push_str("#\tNo leap second will be introduced at the end of this period; UTC-TAI is unchanged.\n");
+            }
+            while h.len() + 2 < target {
+                h.push_str("#\n");
+            }
+            mk(&format!("long-{tag}-{b_off}"), format!("{h}{table}#h\tdeadbeef\n"), tab.to_vec());
+        }
+    }
+    {
+        let mut b = String::new();
+        for t in tab {
+            b.push_str(&line(t, "\t", ""));
+        }
+        let notes: String = (0..1500).map(|i| format!("#\tnote {i}: 3692217600\t99 is quoted in a comment and is not an entry\n")).collect();
+        mk("long-notes-after", format!("{b}{notes}"), tab.to_vec());
+        mk("long-line", format!("#{}\n{b}", "x".repeat(200_000)), tab.to_vec());
+    }
     // 5. empty table with comments only
     mk("empty", "# nothing here\n\n#\n".to_string(), vec![]);
     out
@@ -422,6 +456,40 @@ pub fn run(cfg: &Cfg, rep: &mut Rep) {
                 }
             }
         }
+        // one path whose content changes between loads (the list is rewritten in place twice a year): every load answers for
+        // what the file holds *now*
+        let dir = cfg.verif_dir.join("harness").join("target").join("synth-leap");
+        let p = dir.join(format!("rewritten-{}.list", cfg.seed));
+        let body = |t: &[(i64, i64)], head: &str| {
+            let mut b = String::from(head);
+            for x in t {
+                b.push_str(&format!("{}\t{}\t# e\n", x.0, x.1));
+            }
+            b
+        };
+        let mut ext = tab.to_vec();
+        ext.push((crate::model::cal::days_from_1900(2033, 7, 1) * 86400, 38));
+        let n26 = tab.len() - 2;
+        for (k, (want, head)) in [(&tab[..n26], "# as of 2014\n"), (&tab[..], "# as of 2017\n#\n"), (&ext[..], ""), (&tab[..10], "# older copy restored\n"), (&tab[..0], "# emptied\n"), (&tab[..], "")].into_iter().enumerate() {
+            if std::fs::write(&p, body(want, head)).is_err() {
+                continue;
+            }
+            rep.class("table/file-rewritten");
+            if let Some(f) = check_file(rep, &p, want, "table/file-rewritten") {
+                let t = 6_400_000_000i128 * NS_S + k as i128; // 2102: after every entry of every variant
+                let e = ep(t, TimeScale::TAI);
+                let wv = want.last().map(|x| x.1 as f64);
+                match guard(|| e.leap_seconds_with(true, f.clone())) {
+                    Err(pp) => rep.fail(&format!("provider/panic/{}", pp.class()), None, || format!("leap_seconds_with panicked {}", pp.msg)),
+                    Ok(g) => {
+                        if g != wv {
+                            rep.fail("provider/rewritten-answer", None, || format!("provider {} (load {k} of the same path) at TAI count {}: {:?} want {:?}", p.display(), t, g, wv));
+                        }
+                    }
+                }
+            }
+        }
+        let _ = std::fs::remove_file(&p);
     } else if file.is_none() {
         // (one read per thread: the coverage-guided driver calls run() once per input)
         thread_local! { static SHIPPED: std::cell::RefCell<Option<LeapSecondsFile>> = const { std::cell::RefCell::new(None) }; }
